@@ -480,7 +480,24 @@ def check_D(item, tier, r):
     spec = Spec(spec_item)
     n = spec.n
     g = float(spec.gamma)
-    base = build.SpecMDP(spec, SLAB[li], ALAB[li])
+    if li % 2 == 0:
+        # every transition distribution also lists a never-entered state with probability 0, for which the reward function
+        # is not defined: an outcome that cannot happen is no outcome
+        ghost = ('never', 'entered')
+
+        class GhostMDP(build.SpecMDP):
+            def next_state_dist(self, s_, a_):
+                d = dict(build.SpecMDP.next_state_dist(self, s_, a_).items())
+                d[ghost] = 0.0
+                return DictDistribution(d)
+
+            def reward(self, s_, a_, ns_):
+                if ns_ == ghost:
+                    raise KeyError((s_, a_, ns_))
+                return build.SpecMDP.reward(self, s_, a_, ns_)
+        base = GhostMDP(spec, SLAB[li], ALAB[li])
+    else:
+        base = build.SpecMDP(spec, SLAB[li], ALAB[li])
     sl, al = base.sl, base.al
     o1 = make_option(Option, FunctionalPolicy, DictDistribution, base, spec, 'mix', (2,), 6, name='go')
     o2 = make_option(Option, FunctionalPolicy, DictDistribution, base, spec, 'first', (1, 2), 3, name='short')
